@@ -274,6 +274,51 @@ func scripted(c *kit.Ctx) []job {
 			add("candidate-vanishes-delete-only", 4, append(append(append([]jOp{start(cands, 0)}, vanish...), advance(600001), r1, r1), tail...)...)
 		}
 	}
+	// ---- the first candidate (the one whose NodeClaim the queue enqueues) vanishes while the command waits
+	for _, cands := range [][]int{{0}, {0, 1}, {0, 1, 2}, {1, 2, 3}} {
+		for _, nrepl := range []int{0, 1} {
+			add("first-candidate-vanishes", 4, start(cands, nrepl), env("launch", 0, 0), gone(cands[0]), recon(cands[len(cands)-1]), env("init", 0, 0),
+				recon(cands[len(cands)-1]), advance(3600001), recon(cands[len(cands)-1]), cleanup, deliver, cleanup, restart, cleanup)
+		}
+	}
+	// ---- the Node OBJECT of a candidate is being deleted / is gone (the NodeClaim remains) at each stage
+	nodeop := func(op string, id int) jOp { return jOp{Op: op, Node: id} }
+	for _, op := range []string{"nodedel", "nodegone"} {
+		for _, victim := range []int{0, 1} {
+			// before the command (a deleting Node can still be a candidate; a StateNode without a Node cannot)
+			if op == "nodedel" {
+				add("node-object-"+op+"-before-start", 2, nodeop(op, victim), start([]int{0, 1}, 1), env("launch", 0, 0), env("delapi", 0, 0), env("delstate", 0, 0), recon(0), cleanup, deliver, cleanup)
+			}
+			// while waiting, then each way the command ends
+			add("node-object-"+op+"-then-replacement-vanishes", 2, start([]int{0, 1}, 1), env("launch", 0, 0), nodeop(op, victim), env("delapi", 0, 0), env("delstate", 0, 0), recon(0), cleanup, deliver, cleanup, restart, cleanup)
+			add("node-object-"+op+"-then-timeout", 2, start([]int{0, 1}, 1), env("launch", 0, 0), nodeop(op, victim), advance(600001), recon(1), cleanup, deliver, cleanup)
+			add("node-object-"+op+"-then-success", 2, start([]int{0, 1}, 1), env("launch", 0, 0), env("init", 0, 0), nodeop(op, victim), recon(1), cleanup, deliver, cleanup)
+			// after a failed start: the stale taint / condition and the controller pass
+			o := start([]int{0, 1}, 1)
+			o.FCreate = []int{0}
+			add("node-object-"+op+"-after-failed-start", 2, o, nodeop(op, victim), cleanup, deliver, cleanup, nodeop("nodegone", victim), cleanup, restart, cleanup)
+			// and with a fault on the untaint of the affected node
+			for _, f := range faultKinds(victim) {
+				cl := cleanup
+				cl.FUnt = []jFault{f}
+				add("node-object-"+op+"-cleanup-fault", 2, o, nodeop(op, victim), cl, cleanup)
+				r := recon(0)
+				r.FUnt = []jFault{f}
+				add("node-object-"+op+"-rollback-fault", 2, start([]int{0, 1}, 1), nodeop(op, victim), env("delapi", 0, 0), env("delstate", 0, 0), r, cleanup)
+			}
+		}
+	}
+	// ---- every replacement fails before its Create call: the NodePool cannot be read / its limits are exceeded
+	for _, pf := range []string{"get", "limits"} {
+		for _, nrepl := range []int{1, 2, 3} {
+			o := start([]int{0, 1}, nrepl)
+			o.PoolFault = pf
+			for j := 0; j < nrepl; j++ {
+				o.FCreate = append(o.FCreate, j)
+			}
+			add("nodepool-"+pf, 2, o, cleanup, start([]int{0, 1}, nrepl), env("launch", 1, 0), cleanup)
+		}
+	}
 	// ---- S5 a restart between any two steps of the protocol
 	base := []jOp{start([]int{0, 1}, 2), env("launch", 0, 0), env("launch", 0, 1), env("init", 0, 1), recon(0), env("init", 0, 0), recon(1), deliver, cleanup}
 	for pos := 0; pos <= len(base); pos++ {
@@ -349,7 +394,7 @@ func randomOp(r *kit.Rand, w *world, faults *int) *jOp {
 			continue
 		}
 		all = append(all, id)
-		if nd.Owner < 0 && !nd.Del && !nd.Mark {
+		if nd.Owner < 0 && !nd.Del && !nd.Mark && nd.Obj != "NGone" {
 			free = append(free, id)
 		}
 	}
@@ -362,12 +407,8 @@ func randomOp(r *kit.Rand, w *world, faults *int) *jOp {
 		}
 		return out
 	}
-	var reconcilable []cmdSnap
-	for _, cm := range s.Cmds {
-		if len(liveOf(cm)) > 0 {
-			reconcilable = append(reconcilable, cm)
-		}
-	}
+	// a request for a command travels under its first candidate's key, whichever candidate names the command here
+	reconcilable := s.Cmds
 	if len(all) == 0 {
 		o := advance(1000)
 		return &o
@@ -408,7 +449,16 @@ func randomOp(r *kit.Rand, w *world, faults *int) *jOp {
 	case len(s.Cmds) == 0 && len(free) > 0 && roll < 55, len(free) > 0 && roll < 12, roll < 3:
 		pool := free
 		if len(pool) == 0 || r.Chance(1, 12) {
-			pool = all
+			pool = nil
+			for _, id := range all {
+				if s.Nodes[id].Obj != "NGone" { // a StateNode without a Node is never a candidate
+					pool = append(pool, id)
+				}
+			}
+			if len(pool) == 0 {
+				o := advance(1000)
+				return &o
+			}
 		}
 		o := start(subset(r, pool), kit.Pick(r, []int{0, 1, 1, 1, 2, 2, 3}))
 		if useFault() {
@@ -418,7 +468,18 @@ func randomOp(r *kit.Rand, w *world, faults *int) *jOp {
 			case 1:
 				o.FCond = []jFault{randFault(r, kit.Pick(r, o.Cands))}
 			default:
-				if o.NRepl > 0 {
+				if o.NRepl > 0 && r.Chance(1, 3) {
+					o.PoolFault = "get"
+					// the limits are exceeded only while some node still counts towards the NodePool's usage
+					for _, nd := range s.Nodes {
+						if !nd.Gone && !nd.MView && nd.Obj == "NPresent" && r.Bool() {
+							o.PoolFault = "limits"
+						}
+					}
+					for j := 0; j < o.NRepl; j++ {
+						o.FCreate = append(o.FCreate, j)
+					}
+				} else if o.NRepl > 0 {
 					o.FCreate = []int{r.Intn(o.NRepl)}
 				} else {
 					o.FTaint = []jFault{randFault(r, kit.Pick(r, o.Cands))}
@@ -436,11 +497,11 @@ func randomOp(r *kit.Rand, w *world, faults *int) *jOp {
 		if r.Chance(1, 4) {
 			pool = all
 		}
-		o := jOp{Op: "gone", Node: kit.Pick(r, pool)}
+		o := jOp{Op: kit.Pick(r, []string{"gone", "gone", "nodedel", "nodegone"}), Node: kit.Pick(r, pool)}
 		return &o
 	case len(reconcilable) > 0 && roll < 82:
 		cm := kit.Pick(r, reconcilable)
-		o := recon(kit.Pick(r, liveOf(cm)))
+		o := recon(kit.Pick(r, cm.Cands))
 		if useFault() {
 			switch r.Intn(4) {
 			case 0:
@@ -448,7 +509,11 @@ func randomOp(r *kit.Rand, w *world, faults *int) *jOp {
 					o.FGet = []jFault{fl(r.Intn(len(cm.Latched)), "get", kit.Pick(r, []string{"nf", "fail"}), 1)}
 				}
 			case 1:
-				f := randFault(r, kit.Pick(r, liveOf(cm)))
+				victims := liveOf(cm)
+				if len(victims) == 0 {
+					victims = cm.Cands
+				}
+				f := randFault(r, kit.Pick(r, victims))
 				f.Site = "write"
 				o.FDel = []jFault{f}
 			case 2:
